@@ -55,6 +55,10 @@ Definition defs_renamed (ws : list src_info) (c : str) : list str := map (fun it
 Definition defs_original (ws : list src_info) (c : str) : list str := map (fun it => original (item_id it)) (crate_items ws c).
 Definition defines (ws : list src_info) (c n : str) : bool := mem_str n (defs_renamed ws c).
 
+(* a definition at declaration level: its kind and the names it is defined under *)
+Definition c14_kind (it : ritem) : N := match it with ItStruct _ => 0 | ItEnum _ => 1 | ItAlias _ => 2 | ItConst _ => 3 end.
+Definition c14_decl (it : ritem) : N * id := (c14_kind it, item_id it).
+
 (* crates that get a file: those with at least one annotated item *)
 Fixpoint dedup14 (l : list str) : list str :=
   match l with [] => [] | x :: r => if mem_str x r then dedup14 r else x :: dedup14 r end.
